@@ -167,8 +167,12 @@ def install_bridge(ctx):
         sys.modules["vsim_bridge"] = mod
     mod.CTX = ctx
     mod.run_actor = run_actor
-    mod.sim_yield = lambda: ctx.s.switch("yield", "")
+    mod.sim_yield = _sim_yield  # (no closure over ctx: the module must not keep an old world alive)
     return mod
+
+
+def _sim_yield():
+    sys.modules["vsim_bridge"].CTX.s.switch("yield", "")
 
 
 def bridge_source(aid):
